@@ -30,7 +30,6 @@ use crate::mqtt::connection::GenericEvent;
 use crate::mqtt::packet::kind::PacketKind;
 use crate::mqtt::packet::GenericPacket;
 use crate::mqtt::packet::IsPacketId;
-use crate::mqtt::result_code::MqttError;
 use alloc::vec::Vec;
 use core::fmt::Debug;
 
@@ -279,15 +278,17 @@ where
         + core::fmt::Display
         + Debug
         + PacketKind
-        + SendableHelper<Role, PacketIdType>,
+        + SendableHelper<Role, PacketIdType>
+        + Into<GenericPacket<PacketIdType>>,
 {
     fn dispatch_send(
         self,
         connection: &mut GenericConnection<Role, PacketIdType>,
     ) -> Vec<GenericEvent<PacketIdType>> {
-        // Version check first
+        // Version check first. The refusal is left to send(), which also releases the packet
+        // identifier acquired for a PUBLISH / SUBSCRIBE / UNSUBSCRIBE (VersionMismatch).
         if !T::check(&connection.get_protocol_version()) {
-            return vec![GenericEvent::NotifyError(MqttError::VersionMismatch)];
+            return connection.send(self.into());
         }
 
         trace!("Static dispatch sent: {}", self);
